@@ -42,11 +42,16 @@ def option_sets(backend):
         return [('plain', [], ['types.js'], {}),
                 ('extra', ['-a', ':all'], ['types.js', '-e', json.dumps(
                     {"match": ["style", "upload"], "arg_name": "contents", "arg_type": "Object",
-                     "arg_docstring": "The file contents."})], {})]
+                     "arg_docstring": "The file contents."}), '-e', json.dumps(
+                    {"match": ["style", "download"], "arg_name": "range", "arg_type": "string",
+                     "arg_docstring": "A byte range."}), '-e', json.dumps(
+                    {"match": ["host", "content"], "arg_name": "hint", "arg_type": "string",
+                     "arg_docstring": "A routing hint."})], {})]
     if backend == 'js_client':
         return [('plain', [], ['routes.js'], {}),
                 ('opts', ['-a', ':all'], ['routes.js', '-c', 'Box', '--wrap-response-in', 'Resp',
-                                          '--wrap-error-in', 'Err', '-a', 'style', '--request-options'], {})]
+                                          '--wrap-error-in', 'Err', '-a', 'style', '-a', 'auth', '-a', 'host',
+                                          '--request-options'], {})]
     if backend == 'tsd_types':
         return [('plain', [], ['tmpl.d.ts', 'out.d.ts'], {'tmpl.d.ts': TSD_TEMPLATE}),
                 ('opts', [], ['tmpl.d.ts', '-i', '1', '-s', '4', '-p', 'Mod', '--export-namespaces',
@@ -55,7 +60,8 @@ def option_sets(backend):
         return [('plain', [], ['tmpl.d.ts', 'client.d.ts'], {'tmpl.d.ts': TSD_TEMPLATE}),
                 ('opts', ['-a', ':all'], ['tmpl.d.ts', 'client.d.ts', '-i', '2', '-s', '2',
                                           '--wrap-response-in', 'Resp', '--wrap-error-in', 'Err',
-                                          '--import-namespaces', '--types-file', './types', '-a', 'style'],
+                                          '--import-namespaces', '--types-file', './types', '-a', 'style',
+                                          '-a', 'host', '-a', 'auth'],
                  {'tmpl.d.ts': TSD_TEMPLATE})]
     if backend == 'swift_types':
         return [('plain', [], [], {}),
